@@ -43,6 +43,7 @@ const (
 	shAggExtremes   = "aggregation-extremes" // maximum-size aggregation headers, zero-length units
 	shValidUnits    = "well-formed-fragmented-units"
 	shMutated       = "mutated-valid-stream"
+	shTruncSweep    = "truncation-sweep-of-valid-packets" // every cut point of the header region and of the tail of a valid packet
 	shCorpus        = "repository-fuzz-corpus"
 )
 
@@ -124,7 +125,7 @@ func newSource(spec histSpec, t target, corpus map[string][]*rtp.Packet) (*sourc
 	case shEndlessStart, shEndlessMiddle, shStartMiddles, shFillThenFrag, shUnitsNoMarker:
 		// the named shapes: consecutive sequence numbers, constant timestamp, never a marker
 		s.seqMode, s.tsMode, s.mkMode = seqConsecutive, tsEqual, mkNever
-	case shMutated:
+	case shMutated, shTruncSweep:
 		if t.f == nil {
 			return nil, fmt.Errorf("no codec adapter for %s", t.name)
 		}
@@ -330,6 +331,11 @@ func (s *source) next() *rtp.Packet {
 			s.refill()
 		}
 		p, s.queue = s.queue[0], s.queue[1:]
+	case shTruncSweep:
+		for len(s.queue) == 0 {
+			s.refillTrunc()
+		}
+		p, s.queue = s.queue[0], s.queue[1:]
 	case shCorpus:
 		// the stored packets as they are, then (longer histories) mutated copies of them
 		base := s.queue[i%len(s.queue)]
@@ -460,6 +466,62 @@ func (s *source) refill() {
 		pkts = []*rtp.Packet{q}
 	}
 	s.queue = append(s.queue, pkts...)
+}
+
+// refillTrunc encodes one valid unit and queues, for one of its packets (they take turns), every
+// truncation of that packet inside its first 420 bytes and its last 16 bytes, each preceded by the
+// untouched packets that come before it in the unit: the decoder reaches the state in which it
+// parses that packet and then meets a packet that ends anywhere inside its header structures.
+func (s *source) refillTrunc() {
+	r, f := s.r, s.t.f
+	p := f.Params[r.Intn(len(f.Params))]
+	if s.t.name == "rtpmpeg4audio" {
+		p = s.t.p
+	}
+	lo := f.MinLimit(p)
+	m := max(lo, []int{64, 200, 600, 1450}[s.unit%4])
+	s.unit++
+	enc, err := f.NewEncoder(p, codecs.EncConf{PayloadMaxSize: m, SSRC: 0xc08, InitialSequenceNumber: s.seq + 1, PayloadType: 96})
+	if err != nil {
+		panic("harness: NewEncoder: " + err.Error())
+	}
+	sizes := f.SampleSizes(r, p, m)
+	tot := 0
+	for _, v := range sizes {
+		tot += v
+	}
+	if tot > 6*m+512 {
+		sizes = []int{f.Fit(p, min(2*m, tot))}
+	}
+	pkts, err := enc(f.Gen(r, p, sizes, uint64(s.i+1)))
+	if err != nil || len(pkts) == 0 {
+		q := &rtp.Packet{Payload: fresh(r, 0, 1+r.Intn(16))}
+		s.stamp(q, false)
+		s.queue = append(s.queue, q)
+		return
+	}
+	k := (s.unit / 4) % min(len(pkts), 3) // first, second or third packet of the unit
+	target := pkts[k]
+	n := len(target.Payload)
+	seq := s.seq
+	for c := 0; c <= n; c++ {
+		if c > 420 && c < n-16 {
+			c = n - 16
+		}
+		s.ts += 3000
+		for j := 0; j <= k; j++ {
+			q := *pkts[j]
+			q.Payload = append([]byte(nil), pkts[j].Payload...)
+			if j == k {
+				q.Payload = q.Payload[:c]
+			}
+			seq++
+			q.SequenceNumber = seq
+			q.Timestamp = s.ts
+			s.queue = append(s.queue, &q)
+		}
+	}
+	s.seq = seq
 }
 
 func toWire(p *rtp.Packet) wirePkt {
